@@ -368,38 +368,44 @@ def rule_loops(check):
         "get_prototype_member_path": "recurses on member.obj, a strictly smaller sub-tree",
         "operand-array": "replace_expressions_in_expr <-> ..._or_spread: the recursive call passes ExpandArrays::No, which disables the array arm",
     }
-    for comp in cyc:
-        names = set(comp)
-        if all("::visit_" in x or x.split("::")[-1].startswith("visit_") or x.split("::")[-1] in ("to_dd_cond_expr", "to_dd_assign_expr", "get_literals") for x in names) or any("visit_mut_" in x for x in names):
-            which = "visitor-recursion"
-            ok = True
-        elif names == {"function_prototype_transform::get_prototype_member_path"}:
-            which = "get_prototype_member_path"
-            g = prog.fn("function_prototype_transform::get_prototype_member_path")
-            rec_calls = [n for n in hir.calls_in(g.body, name="get_prototype_member_path")]
-            ok = bool(rec_calls)
-            for n in rec_calls:
-                pv = Prov(prog)
-                o = pv.origins(g, hir.call_args(n)[0])
-                ok = ok and all(r[0] == "param" and r[2] == 0 and "obj" in p for r, p in o)
-        elif names == {"OperandHandler::replace_expressions_in_expr", "OperandHandler::replace_expressions_in_expr_or_spread"}:
-            which = "operand-array"
-            g = prog.fn("OperandHandler::replace_expressions_in_expr")
-            rec = [n for n in hir.calls_in(g.body, name="replace_expressions_in_expr_or_spread")]
-            ok = bool(rec)
-            for n in rec:
-                last = hir.peel(hir.call_args(n)[-1])
-                ok = ok and (last.get("res", {}).get("ctor_path") or "").endswith("ExpandArrays::No")
-                conds = gate.atoms_at(g, n)
-                ok = ok and gate.has_eq_gate(conds, "expand_arrays", "ExpandArrays::Yes")
+    comps_raw = [comp for comp in sccs if len(comp) > 1 or (len(comp) == 1 and list(comp)[0] in edges.get(list(comp)[0], ()))]
+    pv = Prov(prog)
+    for comp in comps_raw:
+        names = sorted(T.short_def(d) for d in comp)
+        is_visitor = any("visit_mut_" in x or "::visit_" in x for x in names)
+        if is_visitor:
+            check.ok(R, "%s/cycle/visitor-recursion" % R, "-", "reviewed cycle {%s}: %s" % (", ".join(names)[:200], reviewed["visitor-recursion"]))
+            continue
+        # structural recursion: every call edge inside the cycle passes, as some AST-typed argument, a
+        # strict sub-part (field / variant payload / element) of an AST-typed parameter of the caller
+        ok = True
+        why = []
+        n_edges = 0
+        for d in comp:
+            f = prog.by_def[d]
+            for n in f.nodes():
+                if not hir.is_call(n):
+                    continue
+                g = prog.resolve_local(n)
+                if g is None or g.def_path not in comp:
+                    continue
+                n_edges += 1
+                dec = False
+                for a in hir.call_args(n):
+                    aty = core_type(hir.peel(a).get("ty") or "")
+                    if not (aty.startswith("swc_ecma_ast::") or aty.startswith("swc_ecma_visit::swc_ecma_ast::")):
+                        continue
+                    os_ = pv.origins(f, a)
+                    if os_ and all(r[0] == "param" and r[1] == f.def_path and len([q for q in p if q != "[]" or True]) > 0 for r, p in os_):
+                        dec = True
+                if not dec:
+                    ok = False
+                    why.append("%s -> %s at %s" % (T.short(f), T.short(g), hir.loc(n)))
+        key = "%s/cycle/%s" % (R, "+".join(names)[:120])
+        if ok and n_edges:
+            check.ok(R, key, "-", "structural recursion {%s}: every recursive call passes a strict sub-tree of an AST parameter (%d edges)" % (", ".join(names)[:200], n_edges))
         else:
-            which = None
-            ok = False
-        key = "%s/cycle/%s" % (R, which or "+".join(sorted(names))[:120])
-        if which and ok:
-            check.ok(R, key, "-", "reviewed cycle {%s}: %s" % (", ".join(sorted(names))[:200], reviewed[which]))
-        else:
-            check.bad(R, key, "-", "call-graph cycle {%s} is not one of the reviewed terminating cycles%s" % (", ".join(sorted(names))[:300], "" if which is None else " (its decreasing measure no longer holds)"))
+            check.bad(R, key, "-", "call-graph cycle {%s} is not structurally decreasing: %s" % (", ".join(names)[:300], "; ".join(why)[:300]))
     # OptChainVisitor re-dispatch is guarded by the `found` flag flip
     v = [f for f in overrides_of(prog, "OptChainVisitor") if f.name == "visit_mut_expr"]
     if v:
